@@ -6,19 +6,20 @@
 # (or evidence that the rewrite is not behaviour-preserving after all).
 set -u
 P=$1; NAME=$2; shift 2
-OUT=/verif/refactors/$NAME
+REPO=${RF_REPO:-/repo}; VERIF=${RF_VERIF:-/verif}
+OUT=$VERIF/refactors/$NAME
 mkdir -p $OUT
 cp $P $OUT/patch.diff
 [ -f "${P%.diff}.txt" ] && cp "${P%.diff}.txt" $OUT/why.txt
-cd /repo
+cd $REPO
 if [ -n "$(git status --short)" ]; then echo "/repo not clean"; exit 4; fi
 if ! git apply --check $OUT/patch.diff 2>/dev/null; then echo "$NAME: PATCH DOES NOT APPLY" | tee $OUT/result.txt; exit 3; fi
 git apply $OUT/patch.diff
 IDS=$(python3 - "$@" <<PY
 import sys, json, subprocess
-sys.path.insert(0, '/verif/tools')
+sys.path.insert(0, '$VERIF/tools')
 import hv
-changed = subprocess.run(['git', '-C', '/repo', 'diff', '--name-only'], capture_output=True, text=True).stdout.split()
+changed = subprocess.run(['git', '-C', '$REPO', 'diff', '--name-only'], capture_output=True, text=True).stdout.split()
 af = hv.anchored_files()
 ids = set(sys.argv[1:])
 ids.add('$NAME'.split('_')[0])
@@ -27,14 +28,14 @@ for f in changed:
 print(' '.join(sorted(i for i in ids if i.startswith('C'))))
 PY
 )
-EVBAK=$(mktemp -d /verif/work/evbak.XXXXXX); cp /verif/evidence/*.json $EVBAK/ 2>/dev/null
+mkdir -p $VERIF/work; EVBAK=$(mktemp -d $VERIF/work/evbak.XXXXXX); cp $VERIF/evidence/*.json $EVBAK/ 2>/dev/null
 RES=""
 for C in $IDS; do
-  ( cd /verif && timeout 3000 ./vp $C quick ) > $OUT/check_$C.log 2>&1; R=$?
+  ( cd $VERIF && timeout 3000 ./vp $C quick ) > $OUT/check_$C.log 2>&1; R=$?
   V=$(grep -c '^VIOLATION' $OUT/check_$C.log)
   echo "$NAME check $C exit=$R violations=$V: $(tail -1 $OUT/check_$C.log | cut -c1-160)"
   RES="$RES $C=$R"
 done
-cp $EVBAK/*.json /verif/evidence/ 2>/dev/null; rm -rf $EVBAK
-git -C /repo checkout -- . ; git -C /repo status --short | head -3
+cp $EVBAK/*.json $VERIF/evidence/ 2>/dev/null; rm -rf $EVBAK
+git -C $REPO checkout -- . ; git -C $REPO status --short | head -3
 echo "checks:$RES" | tee $OUT/result.txt
